@@ -20,4 +20,7 @@ let table : (string * (Model.sx -> Model.sx)) list = [
   "crash", Model.check_crash;
   "blocksync", Model.check_blocksync;
   "statedb", Model.check_statedb;
+  "system", Model.check_system;
+  "validate", Model.check_validate;
+  "evmcore", Model.check_evmcore;
 ]
